@@ -369,8 +369,8 @@ func genParams(rnd *rand.Rand) params {
 		p.stopMode = "gc"
 	}
 	p.clients = 3 + rnd.Intn(8)
-	p.reqs = 6 + rnd.Intn(16)
-	p.slowPct = 10 + rnd.Intn(40)
+	p.reqs = 6 + rnd.Intn(11)
+	p.slowPct = 30 + rnd.Intn(50)
 	p.abortPct = rnd.Intn(8)
 	return p
 }
@@ -578,8 +578,9 @@ func runCase(r *mon.Run, i int, tmp string) (res caseResult) {
 			abort := method == "GET" && resp.StatusCode/100 == 2 && crnd.Intn(100) < p.abortPct
 			ticks0 := cs.cleanerTicks.Load()
 			var body []byte
-			if slowClient && resp.ContentLength > 4096 {
-				chunk := 1024 + crnd.Intn(6000)
+			if slowClient && resp.ContentLength > 4096 && crnd.Intn(100) < 45 {
+				// 3-10 reads with 1-6 ms pauses: the reader is held for 3-60 ms, i.e. across cleaner ticks and expiry
+				chunk := int(resp.ContentLength)/(3+crnd.Intn(8)) + 1
 				buf := make([]byte, chunk)
 				for {
 					n, err := io.ReadFull(resp.Body, buf)
@@ -597,7 +598,7 @@ func runCase(r *mon.Run, i int, tmp string) (res caseResult) {
 						cs.requestDone()
 						return
 					}
-					time.Sleep(time.Duration(500+crnd.Intn(6000)) * time.Microsecond)
+					time.Sleep(time.Duration(1000+crnd.Intn(5000)) * time.Microsecond)
 				}
 				slowBodies.Add(1)
 			} else {
@@ -754,7 +755,7 @@ func runCase(r *mon.Run, i int, tmp string) (res caseResult) {
 func TestC25(t *testing.T) {
 	r := mon.Start(t, "C25")
 	defer r.Finish()
-	r.Rule("case = one FS handler (counting fs.FS over fstest.MapFS or os.DirFS, or the plain os root with /proc/self/fd counting; CacheDuration 10-40 ms; SkipCache, Compress on/off) served by Server.ServeConn to 3-10 concurrent clients x 6-21 requests over net.Pipe / fasthttputil pipes for 4 files, a directory index and a missing path (GET/HEAD, Range, gzip, If-Modified-Since); 10-50% of the clients read bodies in small chunks with sleeps (holding a reader across cleaner ticks), some abort mid-body; CleanStop is closed after a generated number of completed requests (mid traffic), at the end, or never (handler dropped, runtime cleanup closes the manager); a seeded hook yields/sleeps at fs.cache.got / fs.cache.set / fs.dec.unlocked and always delays fs.clean.collected. distinct = set of (inner fs, skip, compress, stop mode, duration bucket, client bucket); non-trivial = the cleaner ran at least once during the case (or SkipCache)")
+	r.Rule("case = one FS handler (counting fs.FS over fstest.MapFS or os.DirFS, or the plain os root with /proc/self/fd counting; CacheDuration 10-40 ms; SkipCache, Compress on/off) served by Server.ServeConn to 3-10 concurrent clients x 6-16 requests over net.Pipe / fasthttputil pipes for 4 files, a directory index and a missing path (GET/HEAD, Range, gzip, If-Modified-Since); 30-80% of the clients read some bodies in 3-10 chunks with 1-6 ms pauses (holding a reader across cleaner ticks), some abort mid-body; CleanStop is closed after a generated number of completed requests (mid traffic), at the end, or never (handler dropped, runtime cleanup closes the manager); a seeded hook yields/sleeps at fs.cache.got / fs.cache.set / fs.dec.unlocked and always delays fs.clean.collected. distinct = set of (inner fs, skip, compress, stop mode, duration bucket, client bucket); non-trivial = the cleaner ran at least once during the case (or SkipCache)")
 	r.Assume("all interleavings is replaced by the interleavings actually produced (signatures counted in the evidence); a handle is judged never closed only after every ServeConn returned, the cache manager was closed and a goroutine dump shows neither the case's cleaner goroutine nor any Release/Close in progress; otherwise the case is inconclusive")
 	r.Assume("closing CleanStop while requests are in flight is exercised although the field comment discourages it: the property statement quantifies over it")
 	tmp := filepath.Join(os.TempDir(), fmt.Sprintf("c25-%d", os.Getpid()))
